@@ -59,6 +59,19 @@ local function here()
   local info = debug.getinfo(2, "l")
   return info.currentline
 end
+local function hereat(l)
+  local info = debug.getinfo(l + 1, "l")
+  return info and info.currentline
+end
+local function dumpupvaluesinorder(f)
+  local i = 1
+  while true do
+    local n, v = debug.getupvalue(f, i)
+    if not n then break end
+    emit("upvalue in order", i, n, v)
+    i = i + 1
+  end
+end
 `
 
 func emitline(args ...L.Expr) L.Stmt { return callStmt(call(name("emitline"), args...)) }
@@ -76,7 +89,7 @@ func (g *Gen) tplLineProbes() []L.Stmt {
 	defer func() { g.fn = saved }()
 	var out []L.Stmt
 	for i, n := 0, 1+g.n(4, "nprobes"); i < n; i++ {
-		form := g.n(18, "lineprobe")
+		form := g.n(22, "lineprobe")
 		g.class("lineprobe:" + itoa(form))
 		switch form {
 		case 0:
@@ -188,6 +201,45 @@ func (g *Gen) tplLineProbes() []L.Stmt {
 				local([]string{"i1", "i2", "i3"}, call(name("mid"))), callStmt(call(name("dumpupvalues"), name("i2"))), emit(call(name("i2"))), emit(call(field(name("debug"), "getupvalue"), name("mid"), num(4)))))
 			out = append(out, local1("outer17", outer), callStmt(call(name("outer17"))))
 			g.class("lineprobe:upvalue_handed_on_twice")
+		case 18:
+			// upvalues are numbered by first mention, also when that mention is an assignment target; the mentions here come
+			// in the order of the declarations, so both readings of "in order" agree
+			inner := []*L.FuncExpr{
+				fn(nil, false, blk(assign1(name("ua"), name("ub")), ret(name("uc")))),
+				fn(nil, false, blk(&L.AssignStmt{Targets: []L.Expr{name("ua"), name("ub")}, Exprs: []L.Expr{name("uc"), name("uc")}}, ret(name("ud")))),
+				fn(nil, false, blk(assign1(name("ua"), num(1)), assign1(name("ub"), bin("+", name("ua"), name("uc"))), ret(name("ud")))),
+				fn(nil, false, blk(local1("x", name("ua")), assign1(name("ub"), name("x")), assign1(name("uc"), name("ud")))),
+			}[g.n(4, "upvalorder")]
+			outer := fn(nil, false, blk(local([]string{"ua", "ub", "uc", "ud"}, num(1), num(2), num(3), num(4)), local1("uf", inner), callStmt(call(name("dumpupvaluesinorder"), name("uf"))),
+				emit(str("setupvalue 1"), call(field(name("debug"), "setupvalue"), name("uf"), num(1), str("first"))), emit(name("ua"), name("ub"), name("uc"), name("ud"))))
+			out = append(out, local1("outer18", outer), callStmt(call(name("outer18"))))
+			g.class("lineprobe:upvalue_numbering")
+		case 19:
+			// a host function that fails while its direct caller is a host function too: the position still is a line of the
+			// running statement (never a host function's name)
+			bad := []L.Expr{
+				call(name("pcall"), field(name("string"), "rep")),
+				call(name("pcall"), name("pcall"), name("setmetatable"), num(1), num(2)),
+				call(name("pcall"), field(name("string"), "gsub"), str("abc"), str("b"), field(name("string"), "rep")),
+				call(name("xpcall"), field(name("string"), "rep"), fn([]string{"m"}, false, blk(ret(name("m"))))),
+				call(name("pcall"), field(name("table"), "concat"), tbl(pos(tbl()))),
+				call(name("pcall"), name("hostcall"), field(name("string"), "rep")),
+				call(name("pcall"), name("ipairs")),
+			}[g.n(7, "hosthost")]
+			out = append(out, emit(bad))
+			g.class("lineprobe:host_function_fails_under_host_function")
+		case 20:
+			// k tail calls in a row: the replaced activations still count as levels (5.1), so the caller of the first one is
+			// level k + 2 of the last
+			k := 1 + g.n(3, "tailchain")
+			var ss []L.Stmt
+			ss = append(ss, &L.LocalFuncStmt{Name: "tc0", Fn: fn(nil, false, blk(emitline(str("after tail calls"), call(name("hereat"), num(1)), call(name("hereat"), num(float64(k+2))), call(name("hereat"), num(float64(k+3)))), ret(num(1))))})
+			for i := 1; i <= k; i++ {
+				ss = append(ss, &L.LocalFuncStmt{Name: "tc" + itoa(i), Fn: fn(nil, false, blk(local1("pad", num(float64(i))), ret(call(name("tc"+itoa(i-1))))))})
+			}
+			ss = append(ss, &L.LocalFuncStmt{Name: "tctop", Fn: fn(nil, false, blk(local1("r", call(name("tc"+itoa(k)))), ret(name("r"))))}, callStmt(call(name("tctop"))))
+			out = append(out, &L.DoStmt{Body: blk(ss...)})
+			g.class("lineprobe:levels_across_tail_calls")
 		default:
 			// loop control faults are reported against the loop header: a bad initial value, limit or step, whatever the body
 			bad := g.n(3, "badforpart")
